@@ -333,8 +333,19 @@ def _open_wrap(real):
     return w
 
 
+class ObserverWouldBlock(BlockingIOError):
+    """The harness's own observer (running inside a boundary callback, i.e. while the observed call is suspended
+    in the middle of an operation) asked for a file lock the suspended call holds: a real reader would simply wait."""
+
+
 def _flock_wrap(real):
     def w(fd, op):
+        if getattr(_tls, "depth", 0) > 0 and getattr(_tls, "ctx", None) is not None and not (op & fcntl.LOCK_UN):
+            # inside a callback: never block the only thread that could ever release the lock
+            try:
+                return real(fd, op | fcntl.LOCK_NB)
+            except BlockingIOError:
+                raise ObserverWouldBlock(11, "observer would wait for a file lock held by the suspended call") from None
         ctx = current()
         if ctx is None:
             return real(fd, op)
